@@ -126,6 +126,11 @@ TMake ==
                \* position the rules prescribe, not against whatever the implementation has drifted to
                /\ MakeMove(m, want, SnapOf(ev), Entry(want, ev))
                /\ Obs(ev, want, hist')
+               \* the hash counts an en-passant target exactly when a capture is legal (C04: hash is a function of the key)
+               /\ IF ~Has(ev, "scrNo") THEN TRUE
+                  ELSE IF want.ep = -1
+                       THEN Expect(ev.hash = ev.scrNo, ev, "C04/hash-counts-an-en-passant-target-that-cannot-be-captured", "", [fen |-> FenOf(want), m |-> ev.m])
+                       ELSE Expect(~Has(ev, "scrWith") \/ ev.hash = ev.scrWith, ev, "C04/hash-misses-a-capturable-en-passant-target", "", [fen |-> FenOf(want), m |-> ev.m])
           ELSE \* pseudo-legal but illegal (the search makes and immediately undoes these): only the undo is judged
                /\ Expect(Has(ev, "illegal"), ev, "C01/illegal-move-played", "", [m |-> ev.m, fen |-> FenOf(pos)])
                /\ Expect(m \in Pseudo(pos), ev, "C05/generated-move-not-pseudo-legal", "", [m |-> ev.m, fen |-> FenOf(pos)])
